@@ -389,11 +389,28 @@ func runC19(c *Ctx) {
 			}
 
 			if recv == "tempKV" {
-				c.MustCut("R19.3", "dirty=true ⊣ {tmp.m = fresh map}", m, StoreToField("tempKV", "dirty"), CutSpec{Nodes: func(in ssa.Instruction) bool {
+				// "dirty ⇒ the map is private": no execution sets dirty and then leaves the method (or writes
+				// the map) without a fresh-map assignment somewhere on the way — before or after the flag store
+				freshStore := func(in ssa.Instruction) bool {
 					st, ok := in.(*ssa.Store)
 
 					return ok && StoreToField("tempKV", "m")(in) && fresh(st.Val)
-				}}, 0)
+				}
+				dirtyStore := StoreToField("tempKV", "dirty")
+				construct := FuncName(m) + " :: dirty=true ⊣ {tmp.m = fresh map}"
+
+				if len(Find(m, dirtyStore)) == 0 {
+					c.OK("R19.3", construct, fpos(m), "does not set dirty")
+				} else {
+					before, w1 := p.Reach(Entry(m), dirtyStore, CutSpec{Nodes: freshStore})
+					after, w2 := p.Reach(After(m, dirtyStore), OrInstr(IsReturn, MapWriteOnField("tempKV", "m")), CutSpec{Nodes: freshStore})
+
+					if before && after {
+						c.Bad("R19.3", construct, fpos(m), "dirty is set without the map having been replaced by a private copy: "+strings.Join(w1, " ")+" … "+strings.Join(w2, " "))
+					} else {
+						c.OK("R19.3", construct, fpos(m), "every execution that sets dirty also installs a fresh map before the map is written or the method returns")
+					}
+				}
 			}
 		}
 	}
@@ -443,7 +460,8 @@ func runC19(c *Ctx) {
 			st := in.(*ssa.Store)
 			d = p.Desc(st.Val)
 
-			if !Glob("call:slices.Clone(*param#0.spec.protobuf)", d) {
+			// (a nil source stays nil: joins with the nil constant are fine)
+			if !p.LeavesMatch(st.Val, "call:slices.Clone(*param#0.spec.protobuf)") {
 				ok = false
 			}
 		}
